@@ -99,7 +99,34 @@ def gen_case(r, cid, source, chain, lens, big=False):
         cid, gen_harness.shape_name(source, chain), known,
         ",".join(map(str, inp)) if inp else "-", ";".join(ops), term, AVAIL,
         ",".join(map(str, sched)) if sched else "-")
-    return line
+    return line + pre_field(r, source, n)
+
+
+def pre_field(r, source, n):
+    """concurrent-iterator sources advanced before into_par(): how many elements were taken"""
+    if source not in gen_harness.PRE_SOURCES:
+        return ""
+    return " pre=%d" % r.choice([0, 1, 2, 3, max(0, n // 2), max(0, n - 1), n, n + 1])
+
+
+def carry(f):
+    return (" pre=" + f["pre"]) if "pre" in f else ""
+
+
+def apply_effin(cases, impl):
+    """std-collection sources: the harness reports the order in which the collection's own
+    sequential iterator yields; that sequence is the input of the model"""
+    out = []
+    for c, a in zip(cases, impl):
+        src = fields(c)["shape"].split("_")[0]
+        if src in gen_harness.EFFIN_SOURCES:
+            af = fields(a)
+            if "effin" in af:
+                toks = c.split()
+                toks = [("in=" + af["effin"]) if t.startswith("in=") else t for t in toks]
+                c = " ".join(toks)
+        out.append(c)
+    return out
 
 
 def corner_case(r, cid, source, chain, term, nt, cs, n, design):
@@ -135,7 +162,7 @@ def corner_case(r, cid, source, chain, term, nt, cs, n, design):
     known = 1 if gen_harness.SOURCES[source][2] else 0
     return "id=%d shape=%s known=%d in=%s ops=%s term=%s avail=%d sched=%s fuel=100000" % (
         cid, gen_harness.shape_name(source, chain), known, ",".join(map(str, inp)) if inp else "-",
-        ";".join(ops), term, AVAIL, ",".join(str(r.randrange(0, 6)) for _ in range(12)))
+        ";".join(ops), term, AVAIL, ",".join(str(r.randrange(0, 6)) for _ in range(12))) + pre_field(r, source, n)
 
 
 def gen_cases(tier, seed, shapes=None, per_shape=None):
@@ -196,7 +223,7 @@ def full_log_case(line):
     elif t[0] == "fe":
         parts.append("M:1:0")
     return "id=%s shape=%s known=%s in=%s ops=%s term=cnt avail=%s sched=- fuel=100000" % (
-        f["id"], f["shape"], f["known"], f["in"], ";".join(parts), f["avail"])
+        f["id"], f["shape"], f["known"], f["in"], ";".join(parts), f["avail"]) + carry(f)
 
 
 def run_bin(path, args, lines, timeout=3000):
@@ -245,6 +272,7 @@ def run_k3(tier, seed, shapes=None, per_shape=None, tag="all"):
     bins = ensure_harness(["k3"])
     cases = gen_cases(tier, seed, shapes, per_shape)
     rc1, impl, err1 = parallel_run(bins["k3"], [], cases, shards=4)
+    cases = apply_effin(cases, impl)
     rc2, model, err2 = parallel_run(DRIVER, ["k3"], cases, shards=16)
     full_cases = [full_log_case(c) for c in cases]
     rc3, full, err3 = parallel_run(DRIVER, ["k3"], full_cases, shards=16)
@@ -254,7 +282,7 @@ def run_k3(tier, seed, shapes=None, per_shape=None, tag="all"):
     for i in idx:
         f = fields(cases[i])
         surv_cases.append("id=%s shape=%s known=%s in=%s ops=%s term=cv avail=%s sched=- fuel=100000" % (
-            f["id"], f["shape"], f["known"], f["in"], f["ops"], f["avail"]))
+            f["id"], f["shape"], f["known"], f["in"], f["ops"], f["avail"]) + carry(f))
     rc4, surv, err4 = parallel_run(DRIVER, ["k3"], surv_cases, shards=16)
     survivors = {}
     for i, line in zip(idx, surv):
@@ -316,6 +344,15 @@ def analyse(cases, impl, model, full, survivors=None):
             mism("run", c, a[:300], m[:300])
             continue
         if af["res"] == "unsupported":
+            continue
+        # --- known finding (C01): a concurrent iterator advanced before into_par(), parallel map-only
+        # ordered collect: positions are written at the original index, the call panics
+        src_ = cf["shape"].split("_")[0]
+        if (src_ in gen_harness.PRE_SOURCES and int(cf.get("pre", "0")) > 0 and af["res"] == "P"
+                and af.get("kind") == "Map" and term in ("cv", "cs", "ci") and nt2 != 1
+                and mf["res"].startswith("L:") and mf["res"] != "L:-"):
+            out["known"]["C01_pre_map_col"] = out["known"].get("C01_pre_map_col", 0) + 1
+            out["known"].setdefault("C01_pre_map_col_sample", c[:300])
             continue
         # --- K3 result correspondence (C01-C04, C06, C07, C09, C15b)
         if af["res"] != mf["res"]:
